@@ -214,8 +214,9 @@ private:
         m_base_absval.assign(ghost_x, ghost_y);
         return;
       } else if ((z % tracked_coefficient) == 0) {
-        // rewrite("x := COEF * y") = "x/COEF := y"
-        m_base_absval.assign(ghost_x, y);
+        // rewrite("x := (k*COEF) * y") = "x/COEF := k*y"
+        m_base_absval.apply(OP_MULTIPLICATION, ghost_x, y,
+                            z / tracked_coefficient);
         return;
       }
     } else if (op == OP_SDIV) {
@@ -225,10 +226,15 @@ private:
         m_base_absval.assign(ghost_x, ghost_y);
         return;
       } else if ((z % tracked_coefficient) == 0) {
-        // rewrite("x := y/COEF") =  "x := y/COEF"
+        // rewrite("x := y/(k*COEF)") =  "x := (y/COEF)/k"
         variable_t ghost_y = get_ghost_var(y, coefficient);
-        m_base_absval.assign(x, ghost_y);
-        return;
+        if (z == tracked_coefficient) {
+          m_base_absval.assign(x, ghost_y);
+        } else {
+          m_base_absval.apply(OP_SDIV, x, ghost_y, z / tracked_coefficient);
+        }
+        // x has been redefined but nothing is known about x/COEF:
+        // fall through to forget it.
       }
     }
 
